@@ -70,9 +70,12 @@ func (v *Verifier) addInstrWrites(fn *ssa.Function, in ssa.Instruction, ws map[s
 		// iteration when curLoopBody is set) cannot touch an object that existed before
 		if ra, ok := rootAlloc(x.Addr); ok && ra.Heap && (curLoopBody == nil || curLoopBody[ra.Block()]) {
 			regFresh = true
+		} else if ok && ra.Heap && curLoopFn != nil && ra.Parent() == curLoopFn {
+			regFnFresh = true
 		}
 		v.addrWrites(x.Addr, ws, cells)
 		regFresh = false
+		regFnFresh = false
 	case *ssa.MapUpdate:
 		regM(under(x.Map.Type()).(*types.Map), ws)
 	case *ssa.Call:
@@ -146,15 +149,23 @@ func (v *Verifier) addrWrites(addr ssa.Value, ws map[string]bool, cells map[*ssa
 
 // curLoopBody: set while the write set of one loop is computed
 var curLoopBody map[*ssa.BasicBlock]bool
+var curLoopFn *ssa.Function
 
 // regFresh: true while registering writes that only initialise freshly allocated objects.
 // Keys "!name" mark components that may be written at pre-existing objects.
 var regFresh bool
 
+// regFnFresh: the write goes to an object allocated by the function that owns the loop, before the loop.
+// Keys "!!name" mark components that may be written at objects older than the function's activation.
+var regFnFresh bool
+
 func markWS(ws map[string]bool, n string) {
 	ws[n] = true
 	if !regFresh {
 		ws["!"+n] = true
+		if !regFnFresh {
+			ws["!!"+n] = true
+		}
 	}
 }
 
@@ -223,6 +234,7 @@ func (v *Verifier) callWrites(fn *ssa.Function, cc *ssa.CallCommon, ws map[strin
 				ws[c] = true
 				if c != "next" {
 					ws["!"+c] = true
+					ws["!!"+c] = true
 				}
 			}
 			return
@@ -248,6 +260,7 @@ func (v *Verifier) callWrites(fn *ssa.Function, cc *ssa.CallCommon, ws map[strin
 			ws[c] = true
 			if c != "next" && !externFreshOnly[key+"|"+c] {
 				ws["!"+c] = true
+				ws["!!"+c] = true
 			}
 		}
 		return
@@ -308,10 +321,10 @@ func (v *Verifier) callWrites(fn *ssa.Function, cc *ssa.CallCommon, ws map[strin
 		}
 		return
 	}
-	saved := curLoopBody
-	curLoopBody = nil // inside the callee every object it allocates is new relative to the caller
+	saved, savedFn := curLoopBody, curLoopFn
+	curLoopBody, curLoopFn = nil, nil // inside the callee every object it allocates is new relative to the caller
 	sub := v.writeSetRec(callee, visiting)
-	curLoopBody = saved
+	curLoopBody, curLoopFn = saved, savedFn
 	for c := range sub {
 		ws[c] = true
 	}
@@ -375,13 +388,13 @@ type sliceWrite struct {
 func (v *Verifier) loopWriteSet(fn *ssa.Function, li *loopInfo) (map[string]bool, map[*ssa.Alloc]bool) {
 	ws := map[string]bool{}
 	cells := map[*ssa.Alloc]bool{}
-	curLoopBody = li.body
+	curLoopBody, curLoopFn = li.body, fn
 	for b := range li.body {
 		for _, in := range b.Instrs {
 			v.addInstrWrites(fn, in, ws, cells, map[*ssa.Function]bool{fn: true})
 		}
 	}
-	curLoopBody = nil
+	curLoopBody, curLoopFn = nil, nil
 	// recursion through the enclosing function itself
 	for b := range li.body {
 		for _, in := range b.Instrs {
@@ -522,6 +535,12 @@ func (ex *Exec) cutLoop(fr *Frame, li *loopInfo, pc *Term, st *State, nloops int
 		}
 		nw := Fresh("loop$"+n, srt)
 		st.setComp(n, nw)
+		if !ws["!!"+n] && fr.entryNext != nil && !strings.HasPrefix(n, "G|") {
+			// every write to a pre-existing object of this component goes through an object this
+			// function allocated itself: objects that existed when the function was entered are untouched
+			a := Bound("a", srt.Idx)
+			ex.assume(pc, Forall([]*Term{a}, Implies(ULt(a, fr.entryNext), Eq(Select(nw, a), Select(cur, a))), []*Term{Select(nw, a)}))
+		}
 		if strings.HasPrefix(n, "E|") && ex.onlyLocalLinearAppends(fr, li, n) {
 			// the only writers are appends to local linear slices, whose arrays were all allocated by
 			// this function: arrays that existed when the function was entered are untouched
@@ -775,7 +794,19 @@ func (ex *Exec) onlyLocalLinearAppends(fr *Frame, li *loopInfo, n string) bool {
 			ld, _ := call.Call.Args[0].(*ssa.UnOp)
 			al, isAlloc := ld.X.(*ssa.Alloc)
 			if !isAlloc {
-				return false
+				// a field of a local struct variable that is never assigned as a whole (starts as the zero value)
+				ra, ok := rootAlloc(ld.X)
+				if !ok || ra.Parent() != fr.fn {
+					return false
+				}
+				if refs := ra.Referrers(); refs != nil {
+					for _, r := range *refs {
+						if st, isStore := r.(*ssa.Store); isStore && st.Addr == ssa.Value(ra) {
+							return false
+						}
+					}
+				}
+				al = ra
 			}
 			for i := range fr.fn.Params {
 				if isParamSpill(al, fr.fn, i) {
